@@ -8,6 +8,7 @@ class whose copy_from cannot rebuild it, H7 default formatter instance exists.
 import ast
 import importlib
 
+from ..astx import code
 from ..astx import dotted, call_name, walk_no_nested, parent, self_attr, func_params, terminates, resolve_local, ancestors, \
     flatten_conditions, dominating_conditions
 from ..callgraph import CallGraph, diff_entries
@@ -136,7 +137,7 @@ def e5_totality(ctx, inst):
     if gf is None:
         ctx.inconclusive("E5", "graphtage/formatter.py", "_get_formatter", None, "conformance", "_get_formatter not found")
     else:
-        src = ast.unparse(gf.node)
+        src = code(gf.node)
         need = [".mro()", ".__name__}", "print_{", "sub_formatters", ".parent"]
         missing = [x for x in need if x not in src]
         if missing:
@@ -328,7 +329,10 @@ def handler_hazards(ctx, reach, roots):
         if is_fmt and name.startswith("print_"):
             n_h2 += 1
             first_raise = next((s for s in f.node.body if isinstance(s, ast.Raise)), None)
-            if first_raise is not None and all(isinstance(s, (ast.Raise, ast.Expr)) for s in f.node.body):
+            # unconditional: a top-level raise that every call reaches - only straight-line statements come before it (what
+            # follows it is dead code)
+            if first_raise is not None and all(isinstance(s, (ast.Expr, ast.Assign, ast.AnnAssign, ast.AugAssign, ast.Pass))
+                                               for s in f.node.body[:f.node.body.index(first_raise)]):
                 ctx.violation("H2", f.file, f.short, first_raise, "unconditional raise",
                               f"handler {f.short} raises unconditionally; the protocol selects it and rendering fails")
             else:
@@ -752,7 +756,7 @@ def h13(ctx):
     reg = False
     if bq:
         for name, (kind, fn) in m.attrs[bq].items():
-            if kind == "def" and any("bytes" in ast.unparse(d) for d in fn.node.decorator_list) and "StringNode(" in ast.unparse(fn.node):
+            if kind == "def" and any("bytes" in ast.unparse(d) for d in fn.node.decorator_list) and "StringNode(" in code(fn.node):
                 reg = True
     sed = m.functions.get("graphtage.graphtage.string_edit_distance")
     if not reg or sed is None:
@@ -760,7 +764,7 @@ def h13(ctx):
         return
     comps = [c for c in walk_no_nested(sed.node) if isinstance(c, (ast.ListComp, ast.GeneratorExp)) and "StringNode(" in ast.unparse(c.elt)]
     ctx.floor("H13", len(comps), 1, "per-element StringNode constructions in string_edit_distance")
-    handles = "bytes" in ast.unparse(sed.node).split('"""')[-1]
+    handles = "bytes" in code(sed.node).split('"""')[-1]
     for c in comps:
         if handles:
             ctx.proved("H13", sed.file, "string_edit_distance", c, f"elements of `{norm(c.generators[0].iter, 10)}`", "bytes arguments are split into one-byte strings")
